@@ -356,7 +356,10 @@ func (o Otto) Set(name string, value interface{}) error {
 }
 
 func (o Otto) setValue(name string, value Value) {
-	o.runtime.globalStash.setValue(name, value, false)
+	// throw: a read-only binding (NaN, undefined, Infinity, a non-writable
+	// global) makes Set fail, as its doc comment promises, instead of
+	// returning nil and storing nothing.
+	o.runtime.globalStash.setValue(name, value, true)
 }
 
 // SetDebuggerHandler sets the debugger handler to fn.
